@@ -47,6 +47,9 @@ type c14world struct {
 	nmd, nmdRen                    bool
 	cd                             *ir.ComdatDef // comdat attached to a global before it is registered
 	cdReg                          bool
+	mdRepl                         bool
+	family                         string
+	usedGeneral                    bool
 }
 
 func c14new() *c14world {
@@ -86,6 +89,13 @@ func (w *c14world) block(sel int) *ir.Block {
 func (w *c14world) operand() value.Value {
 	f := w.curFunc()
 	return f.Params[0]
+}
+
+// c14fam: the operand-level / list-level operations come in independent families (phi, call,
+// attribute group, named metadata, comdat, metadata replacement); a history uses at most one of
+// them next to the general operations (their combinations add nothing but cost).
+func c14fam(w *c14world, f string) bool {
+	return w.family == "" || w.family == f
 }
 
 type c14op struct {
@@ -292,28 +302,34 @@ func c14ops() []c14op {
 	// operand-level edits: an element of an operand LIST replaced in place, and a value written
 	// through the slot that Operands() hands out (a cached operand view is contradicted by both).
 	ops = append(ops,
-		c14op{"append phi [1, first block], [2, last block] @last-block", "append-inst", "local", func(w *c14world) bool { return w.block(1) != nil && w.phi == nil }, func(w *c14world) {
+		c14op{"append phi [1, first block], [2, last block] @last-block", "append-inst", "local", func(w *c14world) bool { return c14fam(w, "phi") && (w.block(1) != nil && w.phi == nil) }, func(w *c14world) {
+			w.family = "phi"
 			w.phi = w.block(1).NewPhi(ir.NewIncoming(constant.NewInt(types.I32, 1), w.block(0)), ir.NewIncoming(constant.NewInt(types.I32, 2), w.block(1)))
 			w.phi.SetName(w.name("ph"))
 		}},
-		c14op{"replace the last incoming of the phi IN PLACE (Incs[1] = NewIncoming(7, same block))", "edit-operand-list", "local", func(w *c14world) bool { return w.phi != nil && !w.phiRep }, func(w *c14world) {
+		c14op{"replace the last incoming of the phi IN PLACE (Incs[1] = NewIncoming(7, same block))", "edit-operand-list", "local", func(w *c14world) bool { return c14fam(w, "phi") && (w.phi != nil && !w.phiRep) }, func(w *c14world) {
+			w.family = "phi"
 			w.phiRep = true
 			w.phi.Incs[1] = ir.NewIncoming(constant.NewInt(types.I32, 7), w.phi.Incs[1].Pred.(*ir.Block))
 		}},
-		c14op{"write i32 9 through the operand slot of the phi's last incoming value", "edit-through-slot", "local", func(w *c14world) bool { return w.phi != nil && !w.phiWr }, func(w *c14world) {
+		c14op{"write i32 9 through the operand slot of the phi's last incoming value", "edit-through-slot", "local", func(w *c14world) bool { return c14fam(w, "phi") && (w.phi != nil && !w.phiWr) }, func(w *c14world) {
+			w.family = "phi"
 			w.phiWr = true
 			ops := w.phi.Operands()
 			*ops[len(ops)-2] = constant.NewInt(types.I32, 9)
 		}},
-		c14op{"append named call @ext2(i32 p, i32 11) @last-block", "append-inst", "local", func(w *c14world) bool { return w.block(1) != nil && w.call2 == nil }, func(w *c14world) {
+		c14op{"append named call @ext2(i32 p, i32 11) @last-block", "append-inst", "local", func(w *c14world) bool { return c14fam(w, "call") && (w.block(1) != nil && w.call2 == nil) }, func(w *c14world) {
+			w.family = "call"
 			w.call2 = w.block(1).NewCall(w.ext2, w.operand(), constant.NewInt(types.I32, 11))
 			w.call2.SetName(w.name("c"))
 		}},
-		c14op{"replace the last argument of the call IN PLACE (Args[1] = 13)", "edit-operand-list", "local", func(w *c14world) bool { return w.call2 != nil && !w.callRep }, func(w *c14world) {
+		c14op{"replace the last argument of the call IN PLACE (Args[1] = 13)", "edit-operand-list", "local", func(w *c14world) bool { return c14fam(w, "call") && (w.call2 != nil && !w.callRep) }, func(w *c14world) {
+			w.family = "call"
 			w.callRep = true
 			w.call2.Args[1] = constant.NewInt(types.I32, 13)
 		}},
-		c14op{"write i32 15 through the last operand slot of the call", "edit-through-slot", "local", func(w *c14world) bool { return w.call2 != nil && !w.callWr }, func(w *c14world) {
+		c14op{"write i32 15 through the last operand slot of the call", "edit-through-slot", "local", func(w *c14world) bool { return c14fam(w, "call") && (w.call2 != nil && !w.callWr) }, func(w *c14world) {
+			w.family = "call"
 			w.callWr = true
 			ops := w.call2.Operands()
 			*ops[len(ops)-1] = constant.NewInt(types.I32, 15)
@@ -322,35 +338,57 @@ func c14ops() []c14op {
 	// lists a printer might "normalise" while printing (duplicates, sort orders): position-based
 	// edits after a print show whether the print wrote into the list.
 	ops = append(ops,
-		c14op{"attribute group { noinline readonly noinline nounwind \"k\"=\"v\" } on the first function", "append-attrgroup", "global-attr", func(w *c14world) bool { return len(w.funcs) > 0 && w.ag == nil }, func(w *c14world) {
+		c14op{"attribute group { noinline readonly noinline nounwind \"k\"=\"v\" } on the first function", "append-attrgroup", "global-attr", func(w *c14world) bool { return c14fam(w, "attrgroup") && (len(w.funcs) > 0 && w.ag == nil) }, func(w *c14world) {
+			w.family = "attrgroup"
 			w.ag = &ir.AttrGroupDef{ID: 0, FuncAttrs: []ir.FuncAttribute{enum.FuncAttrNoInline, enum.FuncAttrReadOnly, enum.FuncAttrNoInline, enum.FuncAttrNoUnwind, ir.AttrPair{Key: "k", Value: "v"}}}
 			w.m.AttrGroupDefs = append(w.m.AttrGroupDefs, w.ag)
 			w.funcs[0].FuncAttrs = append(w.funcs[0].FuncAttrs, w.ag)
 		}},
-		c14op{"replace the first attribute of the group in place (FuncAttrs[0] = cold)", "edit-attr-list", "global-attr", func(w *c14world) bool { return w.ag != nil && !w.agRep }, func(w *c14world) {
+		c14op{"replace the first attribute of the group in place (FuncAttrs[0] = cold)", "edit-attr-list", "global-attr", func(w *c14world) bool { return c14fam(w, "attrgroup") && (w.ag != nil && !w.agRep) }, func(w *c14world) {
+			w.family = "attrgroup"
 			w.agRep = true
 			w.ag.FuncAttrs[0] = enum.FuncAttrCold
 		}},
-		c14op{"drop the first attribute of the group (FuncAttrs = FuncAttrs[1:])", "edit-attr-list", "global-attr", func(w *c14world) bool { return w.ag != nil && !w.agDrop }, func(w *c14world) {
+		c14op{"drop the first attribute of the group (FuncAttrs = FuncAttrs[1:])", "edit-attr-list", "global-attr", func(w *c14world) bool { return c14fam(w, "attrgroup") && (w.ag != nil && !w.agDrop) }, func(w *c14world) {
+			w.family = "attrgroup"
 			w.agDrop = true
 			w.ag.FuncAttrs = w.ag.FuncAttrs[1:]
 		}},
 		// an entity refers to a definition the module does not list YET (a printer that "repairs" the
 		// module by listing it itself is contradicted by the registration that follows).
-		c14op{"attach comdat $grp (not yet listed in m.ComdatDefs) to the first global", "attach-comdat", "global-attr", func(w *c14world) bool { return len(w.m.Globals) > 0 && w.cd == nil }, func(w *c14world) {
+		c14op{"attach comdat $grp (not yet listed in m.ComdatDefs) to the first global", "attach-comdat", "global-attr", func(w *c14world) bool { return c14fam(w, "comdat") && (len(w.m.Globals) > 0 && w.cd == nil) }, func(w *c14world) {
+			w.family = "comdat"
 			w.cd = &ir.ComdatDef{Name: "grp", Kind: enum.SelectionKindAny}
 			w.m.Globals[0].Comdat = w.cd
 		}},
-		c14op{"register the comdat (m.ComdatDefs = append(m.ComdatDefs, $grp))", "register-comdat", "global-attr", func(w *c14world) bool { return w.cd != nil && !w.cdReg }, func(w *c14world) {
+		c14op{"register the comdat (m.ComdatDefs = append(m.ComdatDefs, $grp))", "register-comdat", "global-attr", func(w *c14world) bool { return c14fam(w, "comdat") && (w.cd != nil && !w.cdReg) }, func(w *c14world) {
+			w.family = "comdat"
 			w.cdReg = true
 			w.m.ComdatDefs = append(w.m.ComdatDefs, w.cd)
 		}},
-		c14op{"add named metadata !b10 and !b2", "append-named-metadata", "metadata", func(w *c14world) bool { return !w.nmd }, func(w *c14world) {
+		c14op{"replace the last metadata definition by a fresh unnumbered node (same number of definitions)", "replace-metadata", "metadata", func(w *c14world) bool { return c14fam(w, "mdrepl") && (len(w.m.MetadataDefs) > 0 && !w.mdRepl) }, func(w *c14world) {
+			w.family = "mdrepl"
+			w.mdRepl = true
+			n := len(w.m.MetadataDefs) - 1
+			old := w.m.MetadataDefs[n]
+			md := &metadata.Tuple{MetadataID: -1, Fields: []metadata.Field{&metadata.String{Value: "replacement"}}}
+			w.m.MetadataDefs[n] = md
+			for _, nm := range w.m.NamedMetadataDefs {
+				for i, x := range nm.Nodes {
+					if interface{}(x) == interface{}(old) {
+						nm.Nodes[i] = md
+					}
+				}
+			}
+		}},
+		c14op{"add named metadata !b10 and !b2", "append-named-metadata", "metadata", func(w *c14world) bool { return c14fam(w, "namedmd") && (!w.nmd) }, func(w *c14world) {
+			w.family = "namedmd"
 			w.nmd = true
 			w.m.NamedMetadataDefs["b10"] = &metadata.NamedDef{Name: "b10"}
 			w.m.NamedMetadataDefs["b2"] = &metadata.NamedDef{Name: "b2"}
 		}},
-		c14op{"rename named metadata !b10 to !b1 (delete key, set Name, insert)", "rename-named-metadata", "metadata", func(w *c14world) bool { return w.nmd && !w.nmdRen }, func(w *c14world) {
+		c14op{"rename named metadata !b10 to !b1 (delete key, set Name, insert)", "rename-named-metadata", "metadata", func(w *c14world) bool { return c14fam(w, "namedmd") && (w.nmd && !w.nmdRen) }, func(w *c14world) {
+			w.family = "namedmd"
 			w.nmdRen = true
 			d := w.m.NamedMetadataDefs["b10"]
 			delete(w.m.NamedMetadataDefs, "b10")
@@ -392,6 +430,31 @@ func c14ops() []c14op {
 			}
 		}},
 	)
+	// Family operations combine with the SETUP operations (new functions, blocks, globals, metadata
+	// definitions) only, not with the other general edits: a history is either general or belongs
+	// to one family.
+	famPrefixes := []string{"append phi [1, first block]", "replace the last incoming of the phi", "write i32 9 through the operand slot", "append named call @ext2", "replace the last argument of the call", "write i32 15 through the last operand slot", "attribute group { noinline", "replace the first attribute of the group", "drop the first attribute of the group", "attach comdat $grp", "register the comdat", "replace the last metadata definition", "add named metadata !b10", "rename named metadata !b10"}
+	setupPrefixes := []string{"m.NewGlobalDef(", "m.NewFunc(unnamed)+block", "m.NewFunc(named)+block", "f.NewBlock(", "append metadata def + named metadata", "append metadata def with explicit sparse ID"}
+	has := func(name string, ps []string) bool {
+		for _, p := range ps {
+			if strings.HasPrefix(name, p) {
+				return true
+			}
+		}
+		return false
+	}
+	for i := range ops {
+		op := &ops[i]
+		isFam, isSetup := has(op.name, famPrefixes), has(op.name, setupPrefixes)
+		en, do := op.en, op.do
+		switch {
+		case isFam:
+			op.en = func(w *c14world) bool { return !w.usedGeneral && (en == nil || en(w)) }
+		case !isSetup:
+			op.en = func(w *c14world) bool { return w.family == "" && (en == nil || en(w)) }
+			op.do = func(w *c14world) { w.usedGeneral = true; do(w) }
+		}
+	}
 	return ops
 }
 
